@@ -79,9 +79,13 @@ fn freq<T: Idx>(sink: &mut Sink, rng: &mut Rng, w: u32, thorough: bool) {
     sink.emit(&format!("f_moc {} {} {} {}", w, d, Vec::<T>::with_capacity(cap).capacity(), txt), &ans, n > 0);
     let mut rs: Vec<Range<u64>> = Vec::new();
     for c in vals.chunks(2) {
-      if c.len() == 2 && c[0] != c[1] {
+      if c.len() == 2 {
         rs.push(c[0].min(c[1])..c[0].max(c[1]));
       }
+    }
+    // an empty band `f..f` (no value) must add no cell, whatever the depth and the index width
+    if d % 4 == 1 && !vals.is_empty() {
+      rs.push(vals[0]..vals[0]);
     }
     let ans = guarded(AssertUnwindSafe(|| {
       describe_moc(&RangeMOC::<T, Frequency<T>>::from_freq_ranges_in_hz(
@@ -113,9 +117,13 @@ fn time<T: Idx>(sink: &mut Sink, rng: &mut Rng, w: u32, thorough: bool) {
     sink.emit(&format!("t_moc {} {} {} {}", w, d, Vec::<T>::with_capacity(cap).capacity(), txt), &ans, n > 0);
     let mut rs: Vec<Range<u64>> = Vec::new();
     for c in ts.chunks(2) {
-      if c.len() == 2 && c[0] != c[1] {
+      if c.len() == 2 {
         rs.push(c[0].min(c[1])..c[0].max(c[1]));
       }
+    }
+    // an empty range `t..t` (no instant) must add no cell, whatever its alignment, the depth and the index width
+    if d % 4 == 1 && !ts.is_empty() {
+      rs.push(ts[0]..ts[0]);
     }
     let ans = guarded(AssertUnwindSafe(|| {
       describe_moc(&RangeMOC::<T, Time<T>>::from_microsec_ranges_since_jd0(d, rs.iter().cloned(), Some(cap)))
